@@ -34,12 +34,14 @@ ASSUMPTIONS.update({
     "TypeName": "opaque stand-in for parser::ast::TypeName (not inspected here)",
     "Env": "opaque stand-in for env::Env (only passed to message formatting, which R9 removes)",
     "bool_value": "uninterpreted ghost: the Garden Bool value for a Rust bool",
+    "vfl_is_zero": "`x == 0.0` on f64 is the IEEE comparison (ghost fzero)", "vfl_add": "f64 `+` is IEEE addition (ghost fadd)", "vfl_sub": "f64 `-` (ghost fsub)",
+    "vfl_mul": "f64 `*` (ghost fmul)", "vfl_div": "f64 `/` is the IEEE quotient (ghost fdiv)",
 })
 
 LEMMAS = {"lemma_trunc_is_rust_div": {"C04"}, "lemma_trunc_div_i64": {"C04"}, "lemma_pow_small_base": {"C04"}, "lemma_pow_abs_ge_pow2": {"C04"}, "lemma_pow2_mono": {"C04"}, "lemma_pow2_64": {"C04"}, "lemma_pow_huge": {"C04"}}
 
 UNVERIFIED = {
-    "C04": ["eval_float_binop's block: vstd gives f64 `+ - * /` only uninterpreted specs, so no functional float obligation is stated (machine IEEE arithmetic taken as given)",
+    "C04": ["float VALUES: f64 `+ - * /` and `== 0.0` are uninterpreted IEEE operations (fadd/fsub/fmul/fdiv/fzero); what is proved for eval_float_binop's block is which operation each operator performs and that `/.` raises exactly when the divisor compares equal to zero",
             "the operand extraction above the block (pop order, type checks) — see C07's unit",
             "`Value::display` of the result (how the number is printed)"],
     "C02": ["the rest of eval.rs; only the arithmetic blocks' panic-freedom is covered here"],
@@ -77,6 +79,11 @@ WITNESSES = [
     {"match": r"assign_arm\.(safety@overflow|post\[assign_eq_sub\])", "kind": "run", "props": ["C04", "C02"],
      "input": "let x = %s\nx -= 1\nprintln(string_repr(x))" % MIN,
      "expect": {"stdout": "9223372036854775807"}},
+    {"match": r"float_arm\.", "kind": "run", "props": ["C04"],
+     "input": "println(string_repr(1.0 /. 0.00000000000000000001))\nprintln(string_repr(0.5 +. 0.25))\nprintln(string_repr(0.5 -. 0.25))\nprintln(string_repr(0.5 *. 0.25))\nprintln(string_repr(1.0 /. 4.0))\nprintln(string_repr(-3.0 /. 0.0000000000000001))",
+     "expect": {"stdout": "100000000000000000000.0\n0.75\n0.25\n0.125\n0.25\n-30000000000000000.0"}, "note": "float operators are the IEEE operations; a tiny non-zero divisor is not zero"},
+    {"match": r"float_arm\.", "kind": "run", "props": ["C04"], "input": "println(string_repr(1.0 /. 0.0))", "expect": {"stderr_contains": "by zero"}},
+    {"match": r"float_arm\.", "kind": "run", "props": ["C04"], "input": "println(string_repr(1.0 /. -0.0))", "expect": {"stderr_contains": "by zero"}},
     {"match": r"int_arm\.post\[(lt|gt|le|ge)\]", "kind": "run", "props": ["C04"],
      "input": "println(string_repr(1 < 1))\nprintln(string_repr(1 <= 1))\nprintln(string_repr(2 > 2))\nprintln(string_repr(2 >= 2))\nprintln(string_repr(-1 < 0))",
      "expect": {"stdout": "False\nTrue\nFalse\nTrue\nTrue"}},
@@ -100,6 +107,23 @@ pub assume_specification [i64::checked_pow] (a: i64, n: u32) -> (r: std::option:
 pub assume_specification [i64::wrapping_rem_euclid] (a: i64, b: i64) -> (r: i64)
     requires b != 0,
     ensures r == (a as int) % (b as int);
+"""
+
+FLOAT_GLUE = """
+// IEEE-754 double arithmetic, uninterpreted: `fzero(x)` is `x == 0.0` (true for +0.0 and -0.0 only)
+pub uninterp spec fn fzero(x: f64) -> bool;
+pub uninterp spec fn fadd(a: f64, b: f64) -> f64;
+pub uninterp spec fn fsub(a: f64, b: f64) -> f64;
+pub uninterp spec fn fmul(a: f64, b: f64) -> f64;
+pub uninterp spec fn fdiv(a: f64, b: f64) -> f64;
+#[verifier::external_body] pub fn vfl_is_zero(x: f64) -> (r: bool) ensures r == fzero(x) { x == 0.0 }
+#[verifier::external_body] pub fn vfl_add(a: f64, b: f64) -> (r: f64) ensures r == fadd(a, b) { a + b }
+#[verifier::external_body] pub fn vfl_sub(a: f64, b: f64) -> (r: f64) ensures r == fsub(a, b) { a - b }
+#[verifier::external_body] pub fn vfl_mul(a: f64, b: f64) -> (r: f64) ensures r == fmul(a, b) { a * b }
+#[verifier::external_body] pub fn vfl_div(a: f64, b: f64) -> (r: f64) ensures r == fdiv(a, b) { a / b }
+pub open spec fn ok_float(r: Result<Value, (RestoreValues, EvalError)>, x: f64) -> bool {
+    r is Ok && *r->Ok_0.0 == Value_::Float(x)
+}
 """
 
 UNREACH = rw.simple("R12", r"\bunreachable!\(\)", "vstd::pervasive::unreached()")
@@ -166,6 +190,33 @@ def build(tier):
             ensures=[
                 ("assign_eq_add", "op is Add ==> r == wrap64(*var_value_num + *rhs_num)", {"C04"}),
                 ("assign_eq_sub", "op is Subtract ==> r == wrap64(*var_value_num - *rhs_num)", {"C04"}),
+            ],
+            props=both))
+
+    # float operators: f64 arithmetic is the machine's IEEE-754 operation (uninterpreted ghost functions
+    # fadd/fsub/fmul/fdiv); what is proved is which operation each operator performs and that `/.` raises
+    # exactly when the divisor compares equal to zero
+    FLOAT_RULES = [common.r9, common.CLONE, UNREACH,
+                   rw.simple("F1", r"\brhs_float == 0\.0\b", "vfl_is_zero(rhs_float)"),
+                   rw.simple("F1", r"\blhs_float \+ rhs_float\b", "vfl_add(lhs_float, rhs_float)"),
+                   rw.simple("F1", r"\blhs_float - rhs_float\b", "vfl_sub(lhs_float, rhs_float)"),
+                   rw.simple("F1", r"\blhs_float \* rhs_float\b", "vfl_mul(lhs_float, rhs_float)"),
+                   rw.simple("F1", r"\blhs_float / rhs_float\b", "vfl_div(lhs_float, rhs_float)")]
+    u.raw(FLOAT_GLUE, kind="prelude")
+    u.add_block_fn(
+        EV, "eval_float_binop", "let value = match op.kind {", upto=";",
+        sig=("pub fn float_arm(op: &BinaryOperatorSymbol, lhs_float: f64, rhs_float: f64, lhs_value: Value, "
+             "rhs_value: Value, position: &Position, env: &Env) -> Result<Value, (RestoreValues, EvalError)>"),
+        suffix="\n    Ok(value)",
+        rules=FLOAT_RULES,
+        contract=Contract(
+            requires=[("float_op", "op.kind is AddFloat || op.kind is SubtractFloat || op.kind is MultiplyFloat || op.kind is DivideFloat")],
+            ensures=[
+                ("fadd", "%s is AddFloat ==> ok_float(r, fadd(lhs_float, rhs_float))" % k, {"C04"}),
+                ("fsub", "%s is SubtractFloat ==> ok_float(r, fsub(lhs_float, rhs_float))" % k, {"C04"}),
+                ("fmul", "%s is MultiplyFloat ==> ok_float(r, fmul(lhs_float, rhs_float))" % k, {"C04"}),
+                ("fdiv_by_zero_raises", "%s is DivideFloat && fzero(rhs_float) ==> r is Err" % k, {"C04"}),
+                ("fdiv_is_ieee_quotient", "%s is DivideFloat && !fzero(rhs_float) ==> ok_float(r, fdiv(lhs_float, rhs_float))" % k, {"C04"}),
             ],
             props=both))
 
